@@ -13,7 +13,7 @@ package rwriter
 //@ func (*ProviderResponseWriter).WriteProviderResult
 //@   property C19
 //@   requires pw != nil && pw.encoder != nil
-//@   at call Encode#1: assert typeis(arg1, "model.ProviderResult") && pw.nd
+//@   at call Encode: assert typeis(arg1, "model.ProviderResult") && pw.nd
 //@   ensures result == nil ==> pw.count == old(pw.count) + 1 || old(pw.count) == 9223372036854775807
 //@   ensures result != nil ==> pw.count == old(pw.count)
 //@   ensures-local old(pw.nd) ==> count("call:Encode") == 1 && len(pw.result.ProviderResults) == old(len(pw.result.ProviderResults))
@@ -27,7 +27,7 @@ package rwriter
 //@ func (*ProviderResponseWriter).Close
 //@   property C19
 //@   requires pw != nil && pw.encoder != nil
-//@   at call apierror.New#1: assert arg1 == 404 && pw.count == 0
+//@   at call apierror.New: assert arg1 == 404 && pw.count == 0
 //@   ensures-local old(pw.count) == 0 ==> result != nil && count("call:Encode") == 0 && count("call:apierror.New") == 1
 //@   ensures-local old(pw.count) != 0 && old(pw.nd) ==> result == nil && count("call:Encode") == 0
 //@   ensures-local old(pw.count) != 0 && !old(pw.nd) ==> count("call:Encode") == 1 && count("call:apierror.New") == 0
@@ -43,13 +43,13 @@ package rwriter
 //@   property C19
 //@   requires w != nil && r != nil && r.URL != nil
 //@   ghost optErr := false
-//@   at call getOpts#1: after ghost optErr := result1 != nil
+//@   at call getOpts: after ghost optErr := result1 != nil
 // the multihash that is validated (and then looked up) is the one the key names: the decoded key for a
 // multihash request, the CID's hash for a CID request
 //@   ghost cidHash := zero("multihash.Multihash")
-//@   at call Hash#1: after ghost cidHash := result
-//@   at call multihash.Decode#1: assert count("call:Hash") == 1 ==> arg0 == cidHash
-//@   at call multihash.Decode#1: assert count("call:Hash") == 0 ==> arg0 == b && count("call:NewCidV1") == 1
+//@   at call Hash: after ghost cidHash := result
+//@   at call multihash.Decode: assert count("call:Hash") == 1 ==> arg0 == cidHash
+//@   at call multihash.Decode: assert count("call:Hash") == 0 ==> arg0 == b && count("call:NewCidV1") == 1
 //@   ensures-local result1 == nil ==> count("call:multihash.Decode") == 1 && result0.mh == mh && (count("call:Hash") == 1 ==> result0.mh == cidHash)
 // content negotiation looks at every Accept header value (a malformed one anywhere is a 400):
 //@   loop 1: exhaustive
@@ -70,11 +70,11 @@ package rwriter
 //@   ghost hexErr := false
 //@   ghost cidErr := false
 //@   ghost mhErr := false
-//@   at call ParseMediaType#1: after ghost mtErr := result2 != nil
-//@   at call base58.Decode#1: after ghost b58Err := result1 != nil
-//@   at call DecodeString#1: after ghost hexErr := result1 != nil
-//@   at call cid.Decode#1: after ghost cidErr := result1 != nil
-//@   at call multihash.Decode#1: after ghost mhErr := result1 != nil
+//@   at call ParseMediaType: after ghost mtErr := result2 != nil
+//@   at call base58.Decode: after ghost b58Err := result1 != nil
+//@   at call DecodeString: after ghost hexErr := result1 != nil
+//@   at call cid.Decode: after ghost cidErr := result1 != nil
+//@   at call multihash.Decode: after ghost mhErr := result1 != nil
 //@   at call apierror.New#1: assert mtErr
 //@   at call apierror.New#1: ghost why := true
 //@   at call apierror.New#2: assert len(accepts) == 0 && !opts.preferJson
